@@ -38,6 +38,11 @@ impl PreprocessedText {
     }
 
     fn push<T: AsRef<Path>>(&mut self, s: &str, origin: Option<(T, Range)>) {
+        // An empty segment has no byte to look up, and its zero-length key would compare
+        // equal to (and so shadow) the key of the segment pushed next.
+        if s.is_empty() {
+            return;
+        }
         let base = self.text.len();
         self.text.push_str(s);
 
